@@ -21,7 +21,9 @@ import traceback
 VERIF = os.path.dirname(os.path.dirname(os.path.abspath(__file__)))
 REPO = os.environ.get("FINAM_REPO", "/repo")
 LEAN = os.path.join(VERIF, "lean")
-EVIDENCE = os.path.join(VERIF, "evidence")
+# VERIF_EVIDENCE: where evidence and replay files go (runs against a seeded copy of the package must not overwrite the
+# evidence of the unchanged tree)
+EVIDENCE = os.environ.get("VERIF_EVIDENCE") or os.path.join(VERIF, "evidence")
 REPLAYS = os.path.join(EVIDENCE, "replays")
 DRIVER = os.path.join(LEAN, ".lake", "build", "bin", "driver")
 ALLOWED_AXIOMS = {"propext", "Classical.choice", "Quot.sound"}
